@@ -508,7 +508,16 @@ class AbsoluteFlow(BaseTransitionFlow):
 
     def stratify(self, strat: Stratification) -> List[BaseFlow]:
         new_flows = super().stratify(strat)
-        if len(new_flows) > 1.0:
+        # When only the destination is stratified (and this is not a strain stratification and
+        # the user has supplied no adjustment), BaseTransitionFlow.stratify has already shared
+        # the flow between the new strata (conservation split); do not share it a second time.
+        is_already_split = (
+            self.dest.has_name_in_list(strat.compartments)
+            and not self.source.has_name_in_list(strat.compartments)
+            and not strat.is_strain()
+            and not strat.get_flow_adjustment(self)
+        )
+        if len(new_flows) > 1.0 and not is_already_split:
             adj_factor = 1.0 / len(new_flows)
             for f in new_flows:
                 f.adjustments.append(Multiply(adj_factor))
